@@ -335,7 +335,10 @@ class X86Model(object):
         'never' when it reaches a NEVER/raise site."""
         from .consteval import _Return
         chain, digit_chain, _ = self._dis_mmx_nodes()
-        if self.dis_mmx_rejected_early(name, prefix):
+        early = self.dis_mmx_rejected_early(name, prefix)
+        if early == 'raises':
+            return 'raises'
+        if early:
             return 'rejected'
         me, scope = self._mmx_scope(name, prefix)
         scope['swap_args'] = swap
@@ -373,6 +376,8 @@ class X86Model(object):
         except _Return:
             return True
         except NotConst as e:
+            if 'failed' in str(e):
+                return 'raises'        # the guard itself raises (e.g. list.index of a non-mandatory prefix)
             raise AnalysisError('_dis: early MMX/SSE rejection guard is outside the evaluable subset: %s' % e)
         return False
 
